@@ -547,7 +547,15 @@ def rule_regex(repo: Repo) -> RuleResult:
             continue
         has_digit = any(_is_digit_item(op, av) for op, av in pre)
         has_colon = any(op == sre_c.LITERAL and av == ord(":") for op, av in pre)
-        if has_digit and has_colon:
+        # a left anchor in front of a SINGLE digit (\b\d:, ^\d:, (?<!\d)\d:) only matches one-digit step numbers: steps 10, 11, .. are lost
+        first = pre[0] if pre else None
+        single_digit = any(_is_digit_item(op, av) and op not in (sre_c.MAX_REPEAT, sre_c.MIN_REPEAT) for op, av in pre) and \
+            not any(op in (sre_c.MAX_REPEAT, sre_c.MIN_REPEAT) and av[1] > 1 and _is_digit_item(op, av) for op, av in pre)
+        anchored = first is not None and (first[0] == sre_c.AT or first[0] in (sre_c.ASSERT, sre_c.ASSERT_NOT))
+        if has_digit and has_colon and anchored and single_digit:
+            r.fail(Finding("C19.regex", owner, "prefix-anchored", f"the step prefix of {pat!r} is a single digit behind a left anchor: step numbers with "
+                           f"two or more digits (10:, 11:, ...) are not matched and those steps are dropped"))
+        elif has_digit and has_colon:
             r.ok({"prefix": "digit(s) ':'", "pattern": pat})
         else:
             r.fail(Finding("C19.regex", owner, "prefix", f"the step prefix of {pat!r} is not <digit>:"))
@@ -976,6 +984,62 @@ def rule_cache(repo: Repo, rid: str = "C19.cache", module_filter=None, manual: b
     return r
 
 
+def rule_inplace(repo: Repo) -> RuleResult:
+    """a parser that rewrites a file in place must have read it before it opens it for writing (opening with 'w' truncates)"""
+    from ..inline import flatten
+    r = RuleResult("C19.inplace", "a plan file that is rewritten in place is read completely before it is opened for writing",
+                   "the written plan holds exactly the steps that were read")
+    checked = 0
+    for spec in ("ENHSPParser.parse_plan", "MetricFFParser.parse_plan"):
+        f0 = repo.func_opt(spec)
+        if f0 is None:
+            continue
+        f = flatten(repo, f0, 6, {"parse_plan_content", "_parse_plan_content", "get_solving_status", "_open_plan_file"})
+        p = L.prov(repo, f)
+        g = C.cfg_of(f.node)
+
+        def path_roots(e):
+            try:
+                return {x[0] for x in p.trace(e) if x[0].startswith("param:")}
+            except KeyError:
+                return set()
+
+        opens = []
+        for c in L.calls_in(f.node):
+            nm = callee_name(c)
+            if nm == "open" and c.args:
+                mode = c.args[1] if len(c.args) > 1 else next((k.value for k in c.keywords if k.arg == "mode"), None)
+                target = c.func.value if isinstance(c.func, ast.Attribute) else c.args[0]
+                m = mode.value if isinstance(mode, ast.Constant) and isinstance(mode.value, str) else ("r" if mode is None else "?")
+                opens.append((c, path_roots(target), m))
+            elif nm in ("read_text", "read_bytes") and isinstance(c.func, ast.Attribute):
+                opens.append((c, path_roots(c.func.value), "r"))
+            elif nm in ("write_text", "write_bytes") and isinstance(c.func, ast.Attribute):
+                opens.append((c, path_roots(c.func.value), "w"))
+        writes = [(c, rt) for c, rt, m in opens if m[:1] in ("w", "a", "x") or "+" in m]
+        reads = [(c, rt) for c, rt, m in opens if m[:1] == "r" and "+" not in m]
+        for wc, wr in writes:
+            same = [(rc, rr) for rc, rr in reads if rr & wr]
+            if not same:
+                continue
+            checked += 1
+            r.site(L.site(f, wc, "in-place rewrite"))
+            wn = g.node_containing(wc)
+            after = C.reachable_from(g, wn) if wn is not None else set()
+            late = [rc for rc, _rr in same if g.node_containing(rc) in after and g.node_containing(rc) != wn]
+            # a read nested in the body of the `with open(.., 'w')` is after the truncation as well (the with node itself is `wn`)
+            if late:
+                r.fail(Finding("C19.inplace", f, "read-after-truncate", f"{unparse(late[0], 50)} reads the file after {unparse(wc, 40)} has truncated it: "
+                               f"the rewritten plan is empty", node=late[0]))
+            else:
+                r.ok({"function": f.qn, "read_before_write": True})
+    if not checked:
+        r.site("no parser rewrites its input in place")
+        r.ok({"in_place_rewrites": 0})
+    r.require_sites(1)
+    return r
+
+
 def rules(repo: Repo, tier: str) -> List[RuleResult]:
-    return [rule_regex(repo), rule_lower(repo), rule_status(repo), rule_enhsp(repo),
+    return [rule_regex(repo), rule_lower(repo), rule_status(repo), rule_enhsp(repo), rule_inplace(repo),
             rule_cache(repo, "C19.cache", lambda f: "output_parser" in f.mod.short, manual=True)]
